@@ -467,6 +467,11 @@ def splice_fn(fn_text, spec, notes):
         if not ok:
             notes.append("lost hint anchor in %s: before %r (hint dropped)" % (spec.get('name'), h['text']))
             continue
+        if h.get('after'):
+            line_end = body.find('\n', idx)
+            line_end = len(body) if line_end < 0 else line_end
+            body = body[:line_end + 1] + h['proof'].rstrip() + '\n' + body[line_end + 1:]
+            continue
         line_start = body.rfind('\n', 0, idx) + 1
         body = body[:line_start] + h['proof'].rstrip() + '\n' + body[line_start:]
     loops = spec.get('loops', {})
@@ -677,9 +682,9 @@ def process_template(path, name=None):
                             raise ExtractError("bad slice-range directive: %s" % d2)
                         spec.setdefault('slices', []).append({'start': sm.group(1), 'header': sm.group(2), 'repl': sm.group(3), 'forbid': sm.group(4).split()})
                         cur = None
-                    elif d2.startswith('before '):
-                        bm = re.match(r'before\s+(\d+)\s+"(.*)"\s*$', d2)
-                        h = {'occ': int(bm.group(1)), 'text': bm.group(2), 'proof': ''}
+                    elif d2.startswith('before ') or d2.startswith('after '):
+                        bm = re.match(r'(before|after)\s+(\d+)\s+"(.*)"\s*$', d2)
+                        h = {'occ': int(bm.group(2)), 'text': bm.group(3), 'proof': '', 'after': bm.group(1) == 'after'}
                         spec['before'].append(h); cur = ('before', h)
                     else:
                         raise ExtractError("bad directive in fn block: %s" % d2)
